@@ -19,7 +19,8 @@ fn entry(tag: &str, style: usize, full: bool) -> Entry {
         let v = match k {
             Kind::S => Val::S(match (style, *n) {
                 (_, "PKGNAME") => format!("{}-1.{}", tag, style),
-                (1, "COMMENT") => "caf\u{e9} na\u{ef}ve \u{2014} \u{1f600} a=b".to_string(),
+                (1, "COMMENT") => "caf\u{e9} na\u{ef}ve \u{2014} \u{1f600} a=b ".to_string(),
+                (0, "COMMENT") => " ".to_string(),
                 (1, "CATEGORIES") => String::new(),
                 (2, "COMMENT") => "\u{65e5}\u{672c}\u{8a9e}=\u{00a0}\u{0085}x".to_string(),
                 (2, "OPSYS") => "\u{1f4a9}".to_string(),
@@ -27,7 +28,7 @@ fn entry(tag: &str, style: usize, full: bool) -> Entry {
             }),
             Kind::I => Val::I(if style == 2 { -7 } else { 1024 + style as i64 }),
             Kind::A => Val::A(match style {
-                1 => vec!["l\u{ed}ne one".into(), "".into(), "x=y".into()],
+                1 => vec!["l\u{ed}ne one".into(), "".into(), "".into(), "x=y\t".into()],
                 2 => vec!["\u{1f600}".into()],
                 _ => vec![format!("{} line", tag)],
             }),
